@@ -71,6 +71,10 @@ pub fn show_err(e: &Error) -> String {
 /// Issue one real request of reply kind `kind` on `session`; returns the reply future's outcome after
 /// the peer delivered `reply` (a complete message text incl. the end-of-message marker).
 pub async fn outcome(kind: &str, reply_of: impl Fn(&str) -> String) -> String {
+    outcome_raw(kind, |id| reply_of(id).into_bytes()).await
+}
+
+pub async fn outcome_raw(kind: &str, reply_of: impl Fn(&str) -> Vec<u8>) -> String {
     let (s, peer) = mt::session_with_hello(&mt::hello(&CAPS, 4)).await;
     let mut s = match s {
         Ok(s) => s,
